@@ -54,8 +54,10 @@ ev = {"property_id": "C13", "tier": tier, "seed": seed, "level": "model_checking
       "assumptions": ["neo-go v0.107.0 chain, mempool and Notary service are trusted", "the harness's deploy.Blockchain implementation stands in for an RPC node (every transaction and notary request is round-tripped through its wire encoding)",
                       "the embedded executables (contracts.GetFS) are what is deployed", "rand nonces change hashes only; transactions are ordered by submission, never by hash",
                       "schedules with more deviations than the completed bound, lost RPC answers and real network faults are not explored"]}
-os.makedirs(os.path.join(verif, "evidence"), exist_ok=True)
-json.dump(ev, open(os.path.join(verif, "evidence", "C13.json"), "w"), indent=1)
+# VERIF_EVIDENCE_DIR: used by tools/ when a run is made against a deliberately changed tree
+evdir = os.environ.get("VERIF_EVIDENCE_DIR") or os.path.join(verif, "evidence")
+os.makedirs(evdir, exist_ok=True)
+json.dump(ev, open(os.path.join(evdir, "C13.json"), "w"), indent=1)
 print("C13 %s: schedules=%d by_kind=%s default=%s helpers=%s bound='%s' wall=%.0fs" % (tier, runs, rep["runs_by_kind"], {n: r["rounds"] for n, r in rep["default_runs"].items()}, cov["helper_grids"], rep["bound_completed"], wall))
 for kid, (k, cnt, v) in seen_known.items():
     print("KNOWN-FINDING: property=C13 %s [%s; %d hits]" % (k["what"], kid, cnt))
